@@ -17,6 +17,7 @@ import (
 	"math/rand"
 	"net/http"
 	"net/http/httptest"
+	"net/url"
 	"os"
 	"path/filepath"
 	"runtime"
@@ -513,6 +514,26 @@ func (e *env) mounts(rng *rand.Rand) {
 			// fallback session carrying the expected digest: complete it with other bytes => must be refused
 			loc := rs.H.Get("Location")
 			wrong := []byte(fmt.Sprintf("not the mounted content %d.%d", e.idx, n))
+			if n%2 == 1 {
+				// ... or with other bytes under *their own* digest, computed with the other algorithm than the mount digest: the
+				// registry may refuse (the session remembers the mount digest) or acknowledge it under the digest given - in
+				// neither case may the mount digest serve these bytes; probeAll rehashes whatever both digests serve
+				alg := "sha512"
+				if vh.AlgOf(d) == "sha512" {
+					alg = "sha256"
+				}
+				own := vh.DigestOf(alg, wrong)
+				p := e.do(vh.Req{Method: "PUT", URL: loc + "&digest=" + url.QueryEscape(own), Body: wrong})
+				e.r.Count("mount_fallback_other_algorithm", 1)
+				e.trace = append(e.trace, fmt.Sprintf("  fallback session completed with other bytes under their %s digest -> %d", alg, p.Status))
+				e.probe[own], e.probe[d] = true, true
+				if p.Status == 201 {
+					e.have[dst][own] = wrong
+				} else if p.Status >= 500 {
+					e.viol("completion-5xx", fmt.Sprintf("completing a mount fallback session with other bytes under their own %s digest answered %d", alg, p.Status))
+				}
+				continue
+			}
 			p := e.do(vh.Req{Method: "PUT", URL: loc + "&digest=" + d, Body: wrong})
 			if p.Status < 400 || p.Status >= 500 {
 				if !(p.Status == 201 && dstHas) {
